@@ -116,18 +116,30 @@ def homogeneous_case(rnd):
     obj = hmclab.Distributions.LayeredRayTracing2D(inter, numpy.array([X]), rz)
     obj.parallel = False
     numpy.random.seed(rnd.randrange(1 << 30))
-    with contextlib.redirect_stdout(io.StringIO()), numpy.errstate(all="ignore"):
-        tts = obj.forward(numpy.full(nlay, v))
     probs = []
-    ang = numpy.asarray(obj.solved_angles, dtype=float)
     conv = 0
-    for k in range(nrec):
-        if not math.isnan(ang[k]):
-            conv += 1
-            straight = math.hypot(X, rz[k]) / v
-            if abs(tts[k] - straight) > obj.tolerance / v + 1e-12:
-                probs.append(("homogeneous", f"homogeneous medium v={v}, offset {X}, receiver depth {rz[k]}: travel time {tts[k]}, straight line {straight}, "
-                              f"tolerance/velocity {obj.tolerance / v}"))
+    model = numpy.full(nlay, v)
+    # the same object and the same model array, used again after the array was changed in place (a sampler's
+    # position buffer) and after the returned travel times were changed by the caller
+    for step in range(rnd.choice([1, 2, 3])):
+        if step > 0:
+            v = rnd.choice([1.0, 1.5, 2.0, 2.5, 3.0])
+            model[:] = v
+        with contextlib.redirect_stdout(io.StringIO()), numpy.errstate(all="ignore"):
+            tts = obj.forward(model)
+        ang = numpy.asarray(obj.solved_angles, dtype=float)
+        tts = numpy.asarray(tts, dtype=float)
+        for k in range(nrec):
+            if not math.isnan(ang[k]):
+                conv += 1
+                straight = math.hypot(X, rz[k]) / v
+                if abs(tts[k] - straight) > obj.tolerance / v + 1e-12:
+                    probs.append(("homogeneous", f"homogeneous medium v={v} (evaluation {step + 1} on the same object and model array), offset {X}, receiver depth {rz[k]}: "
+                                  f"travel time {tts[k]}, straight line {straight}, tolerance/velocity {obj.tolerance / v}"))
+        try:
+            tts += 1000.0          # what the caller does with the result must not matter
+        except Exception:  # noqa
+            pass
     return probs, conv, nrec
 
 
